@@ -381,10 +381,24 @@ func ruleLockPrimitive(c *Ctx) {
 					switch {
 					case o.name == "Load":
 					case acquire && o.name == "CompareAndSwap" && len(o.call.Args) == 2:
-						// the expected value is a local loaded from the word, tested by a dominating fact
+						nv := ast.Unparen(o.call.Args[1])
+						negConst := func(e ast.Expr) bool {
+							tv, ok := info.Types[e]
+							return ok && tv.Value != nil && strings.HasPrefix(tv.Value.String(), "-")
+						}
+						isZero := func(e ast.Expr) bool {
+							tv, ok := info.Types[e]
+							return ok && tv.Value != nil && tv.Value.String() == "0"
+						}
+						// a writer that swaps the constant 0 for a negative constant needs no guard: the swap itself
+						// succeeds only on a free lock
+						if mname != "RLock" && isZero(o.call.Args[0]) && negConst(nv) {
+							break
+						}
+						// otherwise the expected value is a local loaded from the word, tested on the way to the swap
 						id, ok := ast.Unparen(o.call.Args[0]).(*ast.Ident)
 						if !ok {
-							bad = "CompareAndSwap with an expected value that is not a loaded local"
+							bad = "CompareAndSwap with an expected value that is neither the constant 0 nor a loaded local"
 							break
 						}
 						def, _ := ast.Unparen(resolveLocalIn(info, fi.Decl.Body, id)).(*ast.CallExpr)
@@ -396,55 +410,98 @@ func ruleLockPrimitive(c *Ctx) {
 							bad = "the expected value of CompareAndSwap is not the result of a Load of the word"
 							break
 						}
-						// the guard and the new value
+						// what is known where the swap is evaluated: the facts that dominate the statement, and inside
+						// the condition it stands in the operands evaluated before it (A && swap: A holds; A || swap: A fails)
 						l := fg.LocOfOuter(o.call)
 						guardOK := false
 						var facts []Fact
 						if l.Valid() {
 							facts = fg.DominatingFacts(l)
 						}
-						// the CAS usually stands in the same condition as its guard: `state == 0 && CAS(…)`
 						if cond := enclosingCond(c, o.call); cond != nil {
-							var cs []ast.Expr
-							flattenAnd(cond, &cs)
-							for _, cj := range cs {
-								if containsNode(cj, o.call) {
-									break
+							var walk func(e ast.Expr)
+							walk = func(e ast.Expr) {
+								e = ast.Unparen(e)
+								switch x := e.(type) {
+								case *ast.UnaryExpr:
+									if x.Op == token.NOT && containsNode(x.X, o.call) {
+										walk(x.X)
+									}
+								case *ast.BinaryExpr:
+									if x.Op != token.LAND && x.Op != token.LOR {
+										return
+									}
+									if containsNode(x.Y, o.call) {
+										facts = append(facts, Fact{E: x.X, Neg: x.Op == token.LOR})
+										walk(x.Y)
+									} else if containsNode(x.X, o.call) {
+										walk(x.X)
+									}
 								}
-								facts = append(facts, Fact{E: cj})
 							}
+							walk(cond)
+						}
+						// flatten conjunctions that hold / disjunctions that fail
+						var atoms []Fact
+						var flat func(f Fact)
+						flat = func(f Fact) {
+							e := ast.Unparen(f.E)
+							if u, ok := e.(*ast.UnaryExpr); ok && u.Op == token.NOT {
+								flat(Fact{E: u.X, Neg: !f.Neg})
+								return
+							}
+							if be, ok := e.(*ast.BinaryExpr); ok && (be.Op == token.LAND && !f.Neg || be.Op == token.LOR && f.Neg) {
+								flat(Fact{E: be.X, Neg: f.Neg})
+								flat(Fact{E: be.Y, Neg: f.Neg})
+								return
+							}
+							atoms = append(atoms, Fact{E: e, Neg: f.Neg})
 						}
 						for _, f := range facts {
+							if f.Tag == nil {
+								flat(f)
+							}
+						}
+						negOp := map[token.Token]token.Token{token.LSS: token.GEQ, token.GEQ: token.LSS, token.GTR: token.LEQ, token.LEQ: token.GTR, token.EQL: token.NEQ, token.NEQ: token.EQL}
+						flipOp := map[token.Token]token.Token{token.LSS: token.GTR, token.GTR: token.LSS, token.LEQ: token.GEQ, token.GEQ: token.LEQ, token.EQL: token.EQL, token.NEQ: token.NEQ}
+						for _, f := range atoms {
 							be, ok := ast.Unparen(f.E).(*ast.BinaryExpr)
-							if !ok || f.Neg {
+							if !ok {
 								continue
 							}
-							lid, ok := ast.Unparen(be.X).(*ast.Ident)
+							op, x, y := be.Op, be.X, be.Y
+							if _, known := negOp[op]; !known {
+								continue
+							}
+							if lid, ok := ast.Unparen(y).(*ast.Ident); ok && info.ObjectOf(lid) == info.ObjectOf(id) {
+								op, x, y = flipOp[op], y, x
+							}
+							lid, ok := ast.Unparen(x).(*ast.Ident)
 							if !ok || info.ObjectOf(lid) != info.ObjectOf(id) {
 								continue
 							}
-							zero := false
-							if tv, ok := info.Types[be.Y]; ok && tv.Value != nil && tv.Value.String() == "0" {
-								zero = true
+							if f.Neg {
+								op = negOp[op]
 							}
-							if !zero {
+							tv, ok := info.Types[y]
+							if !ok || tv.Value == nil {
 								continue
 							}
-							nv := ast.Unparen(o.call.Args[1])
-							if mname == "RLock" && be.Op == token.GEQ {
+							k := tv.Value.String()
+							if mname == "RLock" && (op == token.GEQ && k == "0" || op == token.GTR && k == "-1") {
 								// new value state+1
 								if nb, ok := nv.(*ast.BinaryExpr); ok && nb.Op == token.ADD {
-									if nid, ok := ast.Unparen(nb.X).(*ast.Ident); ok && info.ObjectOf(nid) == info.ObjectOf(id) {
-										if tv, ok := info.Types[nb.Y]; ok && tv.Value != nil && tv.Value.String() == "1" {
-											guardOK = true
+									for _, pr := range [][2]ast.Expr{{nb.X, nb.Y}, {nb.Y, nb.X}} {
+										if nid, ok := ast.Unparen(pr[0]).(*ast.Ident); ok && info.ObjectOf(nid) == info.ObjectOf(id) {
+											if tv, ok := info.Types[pr[1]]; ok && tv.Value != nil && tv.Value.String() == "1" {
+												guardOK = true
+											}
 										}
 									}
 								}
 							}
-							if mname != "RLock" && be.Op == token.EQL {
-								if tv, ok := info.Types[nv]; ok && tv.Value != nil && strings.HasPrefix(tv.Value.String(), "-") {
-									guardOK = true
-								}
+							if mname != "RLock" && op == token.EQL && k == "0" && negConst(nv) {
+								guardOK = true
 							}
 						}
 						if !guardOK {
